@@ -7,6 +7,7 @@ Oracle : reference model R-loop (harness/models/loop.py), three-valued.
 from __future__ import annotations
 
 import itertools
+import re
 from typing import Any
 
 from harness import core, drv
@@ -128,7 +129,79 @@ def judge_abandoned(ctx: core.Ctx, case: dict[str, Any]) -> None:
     ctx.ok((case["source"], mode), nontrivial=True)
 
 
+_TR = re.compile(r'<tr class="row(\d+)">|</tr>|<td class="col(\d+)">|</td>|r(\d+)c(\d+)i(\d+);')
+
+
+def tablerow_structure_cases():
+    """tablerow over 0..6 items with every cols value (also zero, negative, not a number), with a break or a continue at every position: the
+    markup and the helpers describe the same table."""
+    for n in range(0, 7):
+        for cols in [None] + list(range(-2, n + 3)) + ["'2'", "'x'", "nosuch"]:
+            for stop_kind, at in [(None, None)] + [(k, a) for k in ("break", "continue") for a in range(1, n + 1)]:
+                head = f"(1..{n})" if n else "nothing"
+                arg = "" if cols is None else f" cols: {cols}"
+                stop = "" if stop_kind is None else "{% if tablerowloop.index == " + str(at) + " %}{% " + stop_kind + " %}{% endif %}"
+                src = "{% tablerow i in " + head + arg + " %}r{{ tablerowloop.row }}c{{ tablerowloop.col }}i{{ tablerowloop.index }};" + stop + "{% endtablerow %}"
+                yield {"kind": "tablerow-structure", "source": src, "n": n, "cols": cols, "stop": stop_kind, "at": at}
+
+
+def judge_tablerow_structure(ctx: core.Ctx, case: dict[str, Any]) -> None:
+    o = drv.parse_and_render(env(False), case["source"], {"nothing": []}, use_async=case["n"] % 2 == 1)
+    ctx.count("tablerow_structures")
+    ctx.evaluations += 1
+    if not o.ok:
+        if o.is_liquid_error:
+            ctx.count("tablerow_structure_liquid_error")
+            return
+        ctx.violation(f"tablerow-structure:raises-{o.err_class}", f"{case['source']!r} raised {o.err_class}")
+        return
+    rows: list[list[tuple[int, int, int, int]]] = []  # per <tr>: (td col, helper row, helper col, helper index)
+    row_no: list[int] = []
+    cur_td = None
+    for m in _TR.finditer(o.value):
+        if m.group(1):
+            rows.append([])
+            row_no.append(int(m.group(1)))
+        elif m.group(2):
+            cur_td = int(m.group(2))
+        elif m.group(3):
+            if not rows or cur_td is None:
+                ctx.violation("tablerow-structure:cell-outside-a-row", f"{case['source']!r} rendered {o.value!r:.200}")
+                return
+            rows[-1].append((cur_td, int(m.group(3)), int(m.group(4)), int(m.group(5))))
+    cells = [c for r in rows for c in r]
+    n, at, stop = case["n"], case["at"], case["stop"]
+    visited = n if stop != "break" else at
+    why = None
+    if [c[3] for c in cells] != list(range(1, visited + 1)):
+        why = f"cells carry the indexes {[c[3] for c in cells]}, the visited items are 1..{visited}"
+    elif row_no != list(range(1, len(row_no) + 1)):
+        why = f"rows are numbered {row_no}"
+    elif cells and any(not r for r in rows):
+        why = f"a row without any cell: rows hold {[len(r) for r in rows]} cells"
+    else:
+        for ri, r in enumerate(rows):
+            for ci, (td, hrow, hcol, _idx) in enumerate(r):
+                if td != ci + 1 or hcol != td:
+                    why = why or f"cell {ci + 1} of row {ri + 1} is marked col{td} and its helper says col {hcol}"
+                if hrow != row_no[ri]:
+                    why = why or f"a cell inside row{row_no[ri]} has tablerowloop.row == {hrow}"
+        c = case["cols"]
+        if why is None and isinstance(c, int) and c >= 1 and stop != "break":
+            want = [c] * (n // c) + ([n % c] if n % c else [])
+            if [len(r) for r in rows if r] != want:
+                why = f"rows hold {[len(r) for r in rows]} cells, {n} items in rows of {c} make {want}"
+    if why:
+        mech = ("cols-not-positive" if not (isinstance(case["cols"], int) and case["cols"] >= 1) and case["cols"] is not None else "cols") + ("+" + stop if stop else "")
+        ctx.violation(f"tablerow-structure:{mech}", f"{case['source']!r} rendered {o.value!r:.240}: {why}")
+        return
+    ctx.ok((case["source"],), nontrivial=n > 0)
+
+
 def judge(ctx: core.Ctx, case: dict[str, Any]) -> None:
+    if case.get("kind") == "tablerow-structure":
+        judge_tablerow_structure(ctx, case)
+        return
     if case.get("kind") == "abandoned":
         judge_abandoned(ctx, case)
         return
@@ -284,7 +357,7 @@ def gen_nest(rng) -> dict[str, Any]:
 
 
 def cases(ctx: core.Ctx):
-    for gi, c in enumerate(abandoned_loop_cases()):
+    for gi, c in enumerate(itertools.chain(abandoned_loop_cases(), tablerow_structure_cases())):
         if gi % ctx.nshards == ctx.shard:
             yield c
     rng = ctx.rng("cases")
